@@ -5,8 +5,18 @@ use std::path::Path;
 
 pub mod asmcommon;
 pub mod c01;
+pub mod c02;
+pub mod c03;
+pub mod variant;
 pub mod c04;
 pub mod c05;
+pub mod c10;
+pub mod c11;
+pub mod c12;
+pub mod c13;
+pub mod c15;
+pub mod c16;
+pub mod dbgcommon;
 pub mod c17;
 pub mod c19;
 pub mod c20;
@@ -14,8 +24,16 @@ pub mod c20;
 pub fn run(ctx: &Ctx) -> i32 {
     match ctx.property.as_str() {
         "C01" => c01::run(ctx),
+        "C02" => c02::run(ctx),
+        "C03" => c03::run(ctx),
         "C04" => c04::run(ctx),
         "C05" => c05::run(ctx),
+        "C10" => c10::run(ctx),
+        "C11" => c11::run(ctx),
+        "C12" => c12::run(ctx),
+        "C13" => c13::run(ctx),
+        "C15" => c15::run(ctx),
+        "C16" => c16::run(ctx),
         "C17" => c17::run(ctx),
         "C19" => c19::run(ctx),
         "C20" => c20::run(ctx),
@@ -41,8 +59,16 @@ pub fn replay(ctx: &Ctx, path: &Path) -> i32 {
     for case in v["cases"].as_array().cloned().unwrap_or_default() {
         let r = match prop {
             "C01" => c01::replay(ctx, &case),
+            "C02" => c02::replay(ctx, &case),
+            "C03" => c03::replay(ctx, &case),
             "C04" => c04::replay(ctx, &case),
             "C05" => c05::replay(ctx, &case),
+            "C10" => c10::replay(ctx, &case),
+            "C11" => c11::replay(ctx, &case),
+            "C12" => c12::replay(ctx, &case),
+            "C13" => c13::replay(ctx, &case),
+            "C15" => c15::replay(ctx, &case),
+            "C16" => c16::replay(ctx, &case),
             "C17" => c17::replay(ctx, &case),
             "C19" => c19::replay(ctx, &case),
             "C20" => c20::replay(ctx, &case),
